@@ -354,6 +354,81 @@ func splitBrainScenario(r *rng, viol func(clause, sig, detail string)) *simResul
 		desc: map[string]any{"scenario": "split-brain at the quorum boundary", "nodes": 3, "powers": pw, "byzantine": byz, "votes": len(g.votes), "byz_votes": bv, "max_round": g.maxRound(), "all_decided": decided}}
 }
 
+// network-trace scenario: every honest member begins the instance at time 0 (so that nothing is queued inside a participant
+// before its instance exists), then an adversarial prefix (random delays, Byzantine traffic), then a timely phase.  The whole
+// execution is recorded as a schedule of the Layer-N network model (RefineNet): starts, deliveries of the messages the real
+// validator let through, alarms, Byzantine votes.
+func netTraceScenario(r *rng, viol func(clause, sig, detail string)) *simResult {
+	n := 3 + r.intn(3)
+	powers := make([]int64, n)
+	for i := range powers {
+		powers[i] = int64(5 + r.intn(20))
+	}
+	var total int64
+	for _, p := range powers {
+		total += p
+	}
+	byz := make([]bool, n)
+	if r.chance(70) {
+		i := r.intn(n)
+		if 3*powers[i] < total-3*int64(n) {
+			byz[i] = true
+		}
+	}
+	inputs := genInputs(r, n)
+	cfg := gnetCfg{n: n, powers: powers, byz: byz, inputs: inputs, delta: 2 * time.Second}
+	if r.chance(50) {
+		cfg.maxDelay = 7 * time.Second
+	}
+	g := newGnet(r, cfg, viol)
+	var sb int64
+	for i, nd := range g.nodes {
+		if byz[i] {
+			sp, _ := g.pt.Get(nd.id)
+			sb += sp
+		}
+	}
+	if 3*sb >= g.pt.ScaledTotal {
+		for i := range g.nodes {
+			g.nodes[i].honest = true
+			byz[i] = false
+		}
+	}
+	g.rec = true
+	// make the tokens of the common chains stable
+	for _, in := range inputs {
+		g.nct.raw(in)
+	}
+	ctl := &byzCtl{g: g, r: r}
+	for _, nd := range g.nodes {
+		if !nd.honest {
+			ctl.byz = append(ctl.byz, nd)
+		}
+	}
+	ctl.alts = append(ctl.alts, inputs...)
+	ctl.alts = append(ctl.alts, &gpbft.ECChain{TipSets: []*gpbft.TipSet{g.base, mkTipset(1, "byz1")}}, &gpbft.ECChain{TipSets: []*gpbft.TipSet{g.base}})
+	for i, nd := range g.nodes {
+		if nd.honest {
+			g.start(i)
+			g.fireAlarm(nd) // the start alarm: the instance begins
+		}
+	}
+	g.run(150+r.intn(400), ctl.act)
+	g.stabilised = true
+	roundAtStab := g.maxRound()
+	decided := g.run(2500, nil)
+	g.checkDecisions()
+	bv := 0
+	for _, v := range g.votes {
+		if !v.honest {
+			bv++
+		}
+	}
+	return &simResult{g: g, decided: decided, byzVotes: bv, roundAtStab: roundAtStab,
+		desc: map[string]any{"scenario": "network trace for the Layer-N network model", "nodes": n, "powers": powers, "byzantine": byz, "max_delay": cfg.maxDelay.String(), "votes": len(g.votes), "byz_votes": bv,
+			"actions": len(g.acts), "max_round": g.maxRound(), "all_decided": decided}}
+}
+
 // late-QUALITY scenario (no Byzantine message at all): one member is crash-silent, so EVERY remaining member is needed for a
 // strong quorum; the QUALITY votes addressed to the smallest member arrive just after its QUALITY timeout (it has trimmed
 // its proposal to the base by then); nothing is lost and the network is timely from then on.  The late QUALITY quorum
@@ -619,6 +694,25 @@ func runSpecSim(o *out, r *rng, thorough bool, pid string) {
 			o.sample(res.desc)
 		}
 	}
+	// network-level correspondence: real multi-node executions replayed as schedules of the Layer-N NETWORK model; inside Coq
+	// the schedule must be admissible (RefineRun.all_okb: the hypotheses of the network theorems hold on real traffic) and the
+	// model members must end where the real participants ended
+	nt := 6
+	if thorough {
+		nt = 80
+	}
+	for i := 0; i < nt; i++ {
+		viol := func(clause, sig, detail string) {}
+		res := netTraceScenario(r, viol)
+		if len(res.g.acts) > 2500 {
+			o.Dist["net-trace-too-long-for-coq"]++
+			continue
+		}
+		cfgT, honestT, inputsT, actsT, finalsT := res.g.netTrace()
+		o.coqCase(fmt.Sprintf("network trace %d %v", i, res.desc), fmt.Sprintf("net_trace_ok %s %s %s %s %s", cfgT, honestT, inputsT, actsT, finalsT))
+		o.Dist[fmt.Sprintf("net-trace-max-round-%d", min(res.g.maxRound(), 5))]++
+		o.count(pid+"-net-trace", actsT, res.g.maxRound() > 0 || res.byzVotes > 0)
+	}
 	if pid == "C02" {
 		// second sentence of C02: unanimous honest input + strong honest quorum + synchrony + no faulty sender => that chain is decided
 		hp := 25
@@ -667,5 +761,5 @@ func runSpecSim(o *out, r *rng, thorough bool, pid string) {
 			o.count("C02-happy-path", fmt.Sprint(desc), in.Len() > 1)
 		}
 	}
-	o.finish("From F3 Require Import Spec SpecRun.")
+	o.finish("From F3 Require Spec.\nFrom F3 Require Import SpecRun Instance InstanceRun RefineNet RefineRun.")
 }
